@@ -81,7 +81,9 @@ def to_symbolic_model(model: Model) -> SymbolicModel:
     symbols: dict[str, sympy.Symbol | sympy.Expr] = variables | parameters | data  # type: ignore
 
     # Insert derived into symbols
-    for k, v in model.get_raw_derived().items():
+    all_derived = model.get_raw_derived()
+    for k in [i for i in cache.order if i in all_derived]:  # in dependency order
+        v = all_derived[k]
         if (
             expr := fn_to_sympy(v.fn, origin=k, model_args=[symbols[i] for i in v.args])
         ) is None:
